@@ -889,6 +889,9 @@ func ModifyRegister(register *object.Register, in ast.Node) (ast.Node, bool) {
 }
 
 func setupRegister(env *object.Environment, name string, value int64, body ast.Node) (object.Register, ast.Node, bool) {
+	if !env.HasRegisters() {
+		return object.Register{}, body, false // all in use: caller falls back to a regular variable.
+	}
 	register := env.MakeRegister(name, value)
 	newBody, ok := ast.Modify(body, func(in ast.Node) (ast.Node, bool) {
 		return ModifyRegister(&register, in)
@@ -921,16 +924,18 @@ func (s *State) evalForInteger(fe *ast.ForExpression, start *int64, end int64, n
 	var newBody ast.Node
 	var register object.Register
 	newBody = fe.Body
-	if name != "" && !s.NoReg {
+	if name != "" && !s.NoReg && s.env.HasRegisters() {
 		var ok bool
 		register, newBody, ok = setupRegister(s.env, name, int64(startValue), fe.Body)
+		// Release on every way out of the loop (break, return, error, panic), not just normal completion.
+		defer s.env.ReleaseRegister(register)
 		if !ok {
 			return s.Errorf("for loop register %s shouldn't be modified inside the loop", name)
 		}
 		ptr = register.Ptr()
 	}
 	for i := startValue; i < endValue; i++ {
-		if s.NoReg && name != "" {
+		if ptr == nil && name != "" {
 			s.env.Set(name, object.Integer{Value: int64(i)})
 		}
 		if ptr != nil {
@@ -955,9 +960,6 @@ func (s *State) evalForInteger(fe *ast.ForExpression, start *int64, end int64, n
 		default:
 			lastEval = nextEval
 		}
-	}
-	if ptr != nil {
-		s.env.ReleaseRegister(register)
 	}
 	return lastEval
 }
